@@ -14,19 +14,14 @@ theorem spendInput_ok (b : Block) (tx : Tx) (inp : TxIn) (a : InAcc) (c : Coin)
     (h1 : aGet a.utxo inp.prev = some c)
     (h2 : ¬ (c.coinbase = true ∧ b.height - c.height < 100))
     (h3 : c.value ≤ Spec.Connect.MAX_MONEY) (h4 : a.valueIn + c.value ≤ Spec.Connect.MAX_MONEY)
-    (h5 : b.csv = true → 2 ≤ tx.version → inp.sequence / 2 ^ 31 % 2 = 1)
+    (h5 : b.csv = true → 2 ≤ tx.version → seqLockOk b.height b.mtp inp c = true)
     (h6 : inp.scriptOk = true) :
     spendInput b tx inp a = .ok { utxo := aDel a.utxo inp.prev, valueIn := a.valueIn + c.value,
                                    sigops := a.sigops + inputSigOpCost b inp c } := by
   unfold spendInput
   simp only [h1]
-  have hs : b.csv = true → 2 ≤ tx.version → seqLockOk b.height b.mtp inp c = true := by
-    intro q1 q2
-    have := h5 q1 q2
-    unfold seqLockOk
-    simp [Spec.Connect.SEQ_DISABLE, this]
   simp [h2, moneyRange, h3, h4, h6, bind, Except.bind, pure, Except.pure]
-  exact hs
+  exact h5
 
 theorem Inv_congr (mtpOf : Nat → Nat) (db : DB) (b : Block) (s s' : St) (u : Utxo)
     (hd : s'.deled = s.deled) (hb : s'.blUnsp = s.blUnsp) (h : Inv mtpOf db b s u) : Inv mtpOf db b s' u := by
@@ -37,28 +32,30 @@ theorem Inv_congr (mtpOf : Nat → Nat) (db : DB) (b : Block) (s s' : St) (u : U
 theorem SPEC_MAX : Spec.Connect.MAX_MONEY = MAX_MONEY := by decide
 
 /-- the per-input context hypotheses of the refinement -/
-structure InOk (b : Block) (tx : Tx) (inp : TxIn) : Prop where
+structure InOk (mtpOf : Nat → Nat) (db : DB) (b : Block) (tx : Tx) (inp : TxIn) : Prop where
   script : inp.scriptOk = true
-  seq : b.csv = true → 2 ≤ tx.version → inp.sequence / 2 ^ 31 % 2 = 1
-  ret1 : opReturnFree (redeemOf inp.scriptSig) = true
-  ret2 : opReturnFree (inp.witness.getLastD []) = true
+  /-- BIP68 holds for the coin this input spends: a confirmed one, or one created in this very block -/
+  seq : ∀ c : Coin, (absGet mtpOf db inp.prev = some c ∨ (absGet mtpOf db inp.prev = none ∧ c.height = b.height ∧ c.mtpPrev = b.mtp)) →
+        b.csv = true → 2 ≤ tx.version → seqLockOk b.height b.mtp inp c = true
+  ret1 : countsAgree (redeemOf inp.scriptSig) = true
+  ret2 : countsAgree (inp.witness.getLastD []) = true
 
 theorem procInput_sim (mtpOf : Nat → Nat) (db : DB) (b : Block) (tx : Tx) (inp : TxIn) (s s' : St) (a a' : Nat)
     (u : Utxo) (so base : Nat)
     (hh : ∀ k r, aGet db k = some r → r.height ≤ b.height) (hb : b.height < 2 ^ 32)
     (hinv : Inv mtpOf db b s u) (ha : a ≤ MAX_MONEY) (hsig : s.sigops = u32 (base + so))
-    (hin : InOk b tx inp)
+    (hin : InOk mtpOf db b tx inp)
     (h : procInput Cfg.current db b inp s a = .ok (s', a')) :
     ∃ u' so', spendInput b tx inp ⟨u, a, so⟩ = .ok ⟨u', a', so'⟩ ∧ Inv mtpOf db b s' u' ∧ a' ≤ MAX_MONEY
       ∧ s'.sigops = u32 (base + so') ∧ keys s'.blUnsp = keys s.blUnsp
       ∧ s'.fees = s.fees ∧ s'.sumIn = s.sumIn ∧ s'.sumOut = s.sumOut ∧ s'.scriptBad = s.scriptBad := by
   obtain ⟨s1, v, pk, hr, hav, hle⟩ := procInput_sum db b inp s s' a a' ha h
-  obtain ⟨c, c1, c2, c3, c4, c5, c6⟩ := resolve_sim mtpOf db b inp s s1 v pk u hh hb hinv hr
+  obtain ⟨c, c1, c2, c3, c4, c5, c6, c7⟩ := resolve_sim mtpOf db b inp s s1 v pk u hh hb hinv hr
   obtain ⟨f1, f2, f3, f4, f5⟩ := resolve_fields _ db b inp s s1 v pk hr
   have hm := MAX_MONEY_val
   have hv : c.value ≤ Spec.Connect.MAX_MONEY := by rw [SPEC_MAX, c2]; omega
   have hsum : a + c.value ≤ Spec.Connect.MAX_MONEY := by rw [SPEC_MAX, c2]; omega
-  have hsp := spendInput_ok b tx inp ⟨u, a, so⟩ c c1 c4 hv hsum hin.seq hin.script
+  have hsp := spendInput_ok b tx inp ⟨u, a, so⟩ c c1 c4 hv hsum (hin.seq c c7) hin.script
   -- the model's new state
   unfold procInput at h
   simp only [hr] at h
@@ -93,7 +90,7 @@ theorem procInputs_sim (mtpOf : Nat → Nat) (db : DB) (b : Block) (tx : Tx) (in
     (u : Utxo) (so base : Nat)
     (hh : ∀ k r, aGet db k = some r → r.height ≤ b.height) (hb : b.height < 2 ^ 32)
     (hinv : Inv mtpOf db b s u) (ha : a ≤ MAX_MONEY) (hsig : s.sigops = u32 (base + so))
-    (hin : ∀ i ∈ ins, InOk b tx i)
+    (hin : ∀ i ∈ ins, InOk mtpOf db b tx i)
     (h : procInputs Cfg.current db b ins s a = .ok (s', a')) :
     ∃ u' so', spendInputs b tx ins ⟨u, a, so⟩ = .ok ⟨u', a', so'⟩ ∧ Inv mtpOf db b s' u' ∧ a' ≤ MAX_MONEY
       ∧ s'.sigops = u32 (base + so') ∧ keys s'.blUnsp = keys s.blUnsp
@@ -212,16 +209,16 @@ theorem connectTx_ok (b : Block) (tx : Tx) (a : Acc) (r : InAcc)
   simp [h1, bind, Except.bind, pure, Except.pure, this, moneyRange, h3]
 
 /-- the per-transaction context hypotheses of the refinement (non-coinbase transaction) -/
-structure TxOk (db : DB) (b : Block) (tx : Tx) : Prop where
-  ins : ∀ i ∈ tx.ins, InOk b tx i
-  ret : txRetFree tx = true
+structure TxOk (mtpOf : Nat → Nat) (db : DB) (b : Block) (tx : Tx) : Prop where
+  ins : ∀ i ∈ tx.ins, InOk mtpOf db b tx i
+  ret : txCountsAgree tx = true
   outs : checkOutValues tx.outs 0 = .ok ()
   free : aGet db (key8 tx.txid) = none
 
 theorem procTx_sim (mtpOf : Nat → Nat) (db : DB) (b : Block) (tx : Tx) (s s' : St) (a : Acc)
     (hh : ∀ k r, aGet db k = some r → r.height ≤ b.height) (hb : b.height < 2 ^ 32)
     (hinv : Inv mtpOf db b s a.utxo) (hfees : s.fees = a.fees) (hf : s.fees ≤ MAX_MONEY)
-    (hsig : s.sigops = u32 a.sigops) (hfresh : tx.txid ∉ keys s.blUnsp) (htx : TxOk db b tx)
+    (hsig : s.sigops = u32 a.sigops) (hfresh : tx.txid ∉ keys s.blUnsp) (htx : TxOk mtpOf db b tx)
     (h : procTx Cfg.current db b false tx s = .ok s') :
     ∃ a', connectTx b tx a = .ok a' ∧ Inv mtpOf db b s' a'.utxo ∧ s'.fees = a'.fees ∧ s'.fees ≤ MAX_MONEY
       ∧ s'.sigops = u32 a'.sigops ∧ keys s'.blUnsp = keys s.blUnsp ++ [tx.txid]
@@ -301,7 +298,7 @@ theorem procTxs_sim (mtpOf : Nat → Nat) (db : DB) (b : Block) (txs : List Tx) 
     (hinv : Inv mtpOf db b s a.utxo) (hfees : s.fees = a.fees) (hf : s.fees ≤ MAX_MONEY)
     (hsig : s.sigops = u32 a.sigops)
     (hfresh : ∀ tx ∈ txs, tx.txid ∉ keys s.blUnsp) (hids : (txs.map (·.txid)).Nodup)
-    (hall : ∀ tx ∈ txs, TxOk db b tx)
+    (hall : ∀ tx ∈ txs, TxOk mtpOf db b tx)
     (h : procTxs Cfg.current db b false txs s = .ok s') :
     ∃ a', connectTxs b txs a = .ok a' ∧ Inv mtpOf db b s' a'.utxo ∧ s'.fees = a'.fees ∧ s'.fees ≤ MAX_MONEY
       ∧ s'.sigops = u32 a'.sigops ∧ keys s'.blUnsp = keys s.blUnsp ++ txs.map (·.txid)
